@@ -11,6 +11,7 @@ mod c02;
 mod c03;
 mod c04;
 mod c16;
+mod c17;
 mod c05;
 mod c06;
 mod c07;
@@ -37,6 +38,7 @@ fn exec_line(line: &str) -> String {
             "C03" => c03::exec(&op, &a),
             "C04" => c04::exec(&op, &a),
             "C16" => c16::exec(&op, &a),
+            "C17" => c17::exec(&op, &a),
             "C05" => c05::exec(&op, &a),
             "C06" => c06::exec(&op, &a),
             "C07" => c07::exec(&op, &a),
@@ -90,6 +92,7 @@ fn main() {
                 "C03" => c03::generate(&mut rng, tier, shard, nshards, &mut emit),
                 "C04" => c04::generate(&mut rng, tier, shard, nshards, &mut emit),
                 "C16" => c16::generate(&mut rng, tier, shard, nshards, &mut emit),
+                "C17" => c17::generate(&mut rng, tier, shard, nshards, &mut emit),
                 "C05" => c05::generate(&mut rng, tier, shard, nshards, &mut emit),
                 "C06" => c06::generate(&mut rng, tier, shard, nshards, &mut emit),
                 "C07" => c07::generate(&mut rng, tier, shard, nshards, &mut emit),
